@@ -7,6 +7,14 @@
   non-negative for p, q ∈ [0,1], conditional mean and variance on the code's grid are those of
   the AR(1).  Tauchen: for every Φ the rows telescope to 1 on an evenly spaced grid.
   estimate_mc: exact counting.
+
+  Later rounds: the chain is positive (|ρ| < 1), Binomial(n-1,1/2) is its UNIQUE stationary law,
+  k-step conditional mean and variance and the lag-k autocovariance are those of the AR(1) for
+  every horizon; Tauchen cells are the mid-point (nearest-point) cells; estimate_mc's row total is
+  the number of times the state is left and its entries lie in [0,1]; fit_discrete_mc's state
+  values are exactly the nearest grid points (C16 theorems) and its P counts transitions between
+  those points (row numbers ↦ grid points is injective on strictly increasing grids).
+  Not proved here: anything about `sqrt`/`erfc` themselves (parameters), floating-point rounding.
 -/
 import QEModel.C13
 import QEProofs.Lemmas.C13Rouw
@@ -14,6 +22,9 @@ import QEProofs.Lemmas.C13Grid
 import QEProofs.Lemmas.C13Tauchen
 import QEProofs.Lemmas.C13Est
 import QEProofs.Lemmas.C13Poly
+import QEProofs.Lemmas.C13Out
+import QEProofs.Lemmas.C13Unique
+import QEProofs.Lemmas.C13FitInj
 import QEProofs.Properties.C16
 namespace QE.C13
 open QE Finset
@@ -135,6 +146,26 @@ theorem rouwenhorst_stochastic (sqrt : K → K) (n : ℕ) (rho sigma mu : K) (h1
   have hp0 : 0 ≤ (1 + rho) / 2 := by linarith
   have hp1 : (1 + rho) / 2 ≤ 1 := by linarith
   exact rouwenhorst_nonneg n _ _ hp0 hp1 hp0 hp1 T hT i j hi hj
+
+/-- **All transition probabilities are strictly positive** for every `n ≥ 2` and `|ρ| < 1`
+    (every state reaches every state in one step: the chain is irreducible and aperiodic). -/
+theorem rouwenhorst_pos (sqrt : K → K) (n : ℕ) (rho sigma mu : K) (h1 : -1 < rho) (h2 : rho < 1)
+    (T : M K) (g : List K) (h : rouwenhorst sqrt n rho sigma mu = some (T, g)) (i j : ℕ)
+    (hi : i < n) (hj : j < n) : 0 < T.get i j := by
+  obtain ⟨hT, _⟩ := rouwenhorst_eq sqrt n rho sigma mu T g h
+  unfold rowBuildMat at hT
+  split at hT
+  · simp at hT
+  · obtain ⟨m, rfl⟩ : ∃ m, n = m + 2 := ⟨n - 2, by omega⟩
+    simp only [Option.some.injEq, Nat.add_sub_cancel] at hT
+    subst hT
+    have hp0 : 0 < (1 + rho) / 2 := by linarith
+    have hp1 : (1 + rho) / 2 < 1 := by linarith
+    exact rouwMat_pos _ _ hp0 hp1 hp0 hp1 m i j hi hj
+
+/-- non-vacuity: `ρ = 3/5`, `n = 4` (any `sqrt`) -/
+example : (-1 : ℚ) < 3/5 ∧ (3/5 : ℚ) < 1 ∧ (rouwenhorst (fun _ : ℚ => 1) 4 (3/5) 1 0).isSome = true := by
+  decide +kernel
 
 /-- **Conditional mean is that of the AR(1)** at every grid point, for every `n ≥ 2`, every
     `ρ ≠ 1`, and *whatever* the external `sqrt` returns: `E[y' | y_i] = μ + ρ y_i`. -/
@@ -290,6 +321,201 @@ theorem rouwenhorst_uncond_moments (sqrt : K → K) (n : ℕ) (hn : 2 ≤ n) (rh
     rw [hfin, hψ2]
     field_simp
 
+/-- **Binomial(n-1, 1/2) is THE stationary law** for `|ρ| < 1`: any vector `π` of total mass one
+    with `π Θ = π` is the binomial law (positivity of all entries + `rouwenhorst_stationary`);
+    no sign condition on `π` is needed. All `n ≥ 2`. -/
+theorem rouwenhorst_stationary_unique (sqrt : K → K) (n : ℕ) (rho sigma mu : K) (h1 : -1 < rho)
+    (h2 : rho < 1) (T : M K) (g : List K) (h : rouwenhorst sqrt n rho sigma mu = some (T, g))
+    (π : ℕ → K) (hπ : ∀ j, j < n → ∑ i ∈ range n, π i * T.get i j = π j)
+    (hmass : ∑ i ∈ range n, π i = 1) :
+    ∀ i, i < n → π i = (Nat.choose (n - 1) i : K) / 2 ^ (n - 1) := by
+  obtain ⟨hT, _⟩ := rouwenhorst_eq sqrt n rho sigma mu T g h
+  have hn : 2 ≤ n := by
+    by_contra hc
+    rw [(rowBuildMat_none_iff n _ _).mpr (by omega)] at hT; simp at hT
+  refine stationary_unique n T.get
+    (fun i j hi hj => rouwenhorst_pos sqrt n rho sigma mu h1 h2 T g h i j hi hj)
+    (fun i hi => rouwenhorst_row_sums n _ _ T hT i hi) π _ hπ
+    (fun j hj => rouwenhorst_stationary n _ T hT j hj) ?_
+  -- the binomial weights have total mass one
+  rw [hmass]
+  obtain ⟨m, rfl⟩ : ∃ m, n = m + 2 := ⟨n - 2, by omega⟩
+  have hb : ∀ j ∈ range (m + 2), (Nat.choose (m + 2 - 1) j : K) / 2 ^ (m + 2 - 1)
+      = (rouwMat (1 / 2 : K) (1 / 2) m).get 0 j := fun j hj =>
+    binom_eq_row m 0 j (by omega) (mem_range.mp hj)
+  rw [sum_congr rfl hb]
+  have hT' : rowBuildMat (m + 2) (1 / 2 : K) (1 / 2) = some (rouwMat (1 / 2) (1 / 2) m) := by
+    unfold rowBuildMat; simp
+  exact (rouwenhorst_row_sums (m + 2) _ _ _ hT' 0 (by omega)).symm
+
+/-- non-vacuity: for `n = 2`, `ρ = 1/2` the law `(1/2, 1/2)` is stationary with mass one -/
+example : ∃ T g, rouwenhorst (fun _ : ℚ => 1) 2 (1/2 : ℚ) 1 0 = some (T, g) ∧
+    (1/2 : ℚ) * T.get 0 0 + (1/2) * T.get 1 0 = 1/2 ∧ (1/2 : ℚ) * T.get 0 1 + (1/2) * T.get 1 1 = 1/2 :=
+  ⟨_, _, rfl, by decide +kernel, by decide +kernel⟩
+
+/-- `k`-step conditional expectation of the state value under the chain `(T, g)`:
+    `kStepMean T g n 0 i = g[i]`, `kStepMean T g n (k+1) i = Σ_j T[i,j] · kStepMean T g n k j` -/
+def kStepMean (T : M K) (g : List K) (n : ℕ) : ℕ → ℕ → K
+  | 0, i => g.getD i 0
+  | k + 1, i => ∑ j ∈ range n, T.get i j * kStepMean T g n k j
+
+/-- **Impulse response at every horizon.** For every `n ≥ 2`, `ρ ≠ 1`, every horizon `k` and
+    every grid point: `E[y_{t+k} | y_t = y_i] = m + ρ^k (y_i - m)`, `m = μ/(1-ρ)` — exactly the
+    AR(1) forecast (whatever `sqrt` returns). -/
+theorem rouwenhorst_k_step_mean (sqrt : K → K) (n : ℕ) (rho sigma mu : K) (hrho : rho ≠ 1)
+    (T : M K) (g : List K) (h : rouwenhorst sqrt n rho sigma mu = some (T, g)) (k i : ℕ) (hi : i < n) :
+    kStepMean T g n k i = mu / (1 - rho) + rho ^ k * (g.getD i 0 - mu / (1 - rho)) := by
+  obtain ⟨hT, _⟩ := rouwenhorst_eq sqrt n rho sigma mu T g h
+  have hr : 1 - rho ≠ 0 := fun h => hrho (by linarith)
+  induction k generalizing i with
+  | zero => simp [kStepMean]
+  | succ k ih =>
+    have h0 := rouwenhorst_row_sums n _ _ T hT i hi
+    have h1 := rouwenhorst_cond_mean sqrt n rho sigma mu hrho T g h i hi
+    have e : ∀ j ∈ range n, T.get i j * kStepMean T g n k j
+        = (mu / (1 - rho) - rho ^ k * (mu / (1 - rho))) * T.get i j
+          + rho ^ k * (T.get i j * g.getD j 0) := by
+      intro j hj
+      rw [ih j (mem_range.mp hj)]; ring
+    show ∑ j ∈ range n, T.get i j * kStepMean T g n k j = _
+    rw [sum_congr rfl e, sum_add_distrib, ← mul_sum, ← mul_sum, h0, h1]
+    field_simp
+    ring
+
+/-- non-vacuity: `n = 2`, `ρ = 1/2`, `σ = 1`, `μ = 0`, `sqrt ≡ 1` (grid `-1, 1`): two steps ahead
+    from `y_0 = -1` the forecast is `ρ² y_0 = -1/4` -/
+example : ∃ T g, rouwenhorst (fun _ : ℚ => 1) 2 (1/2 : ℚ) 1 0 = some (T, g) ∧ g.getD 0 0 = -1 ∧
+    kStepMean T g 2 2 0 = -1/4 :=
+  ⟨_, _, rfl, by decide +kernel, by decide +kernel⟩
+
+/-- `k`-step conditional second moment of the state value under the chain `(T, g)` -/
+def kStepSq (T : M K) (g : List K) (n : ℕ) : ℕ → ℕ → K
+  | 0, i => g.getD i 0 ^ 2
+  | k + 1, i => ∑ j ∈ range n, T.get i j * kStepSq T g n k j
+
+/-- one-step conditional second moment: `E[y'² | y_i] = σ² + (μ + ρ y_i)²` -/
+theorem rouwenhorst_cond_second_moment (sqrt : K → K) (n : ℕ) (rho sigma mu : K) (hrho : rho ≠ 1)
+    (hrho2 : 1 - rho * rho ≠ 0)
+    (hs1 : ySd sqrt rho sigma * ySd sqrt rho sigma = sigma * sigma / (1 - rho * rho))
+    (hs2 : sqrt (((n - 1 : ℕ)) : K) * sqrt (((n - 1 : ℕ)) : K) = (((n - 1 : ℕ)) : K))
+    (T : M K) (g : List K) (h : rouwenhorst sqrt n rho sigma mu = some (T, g)) (i : ℕ) (hi : i < n) :
+    ∑ j ∈ range n, T.get i j * g.getD j 0 ^ 2 = sigma * sigma + (mu + rho * g.getD i 0) ^ 2 := by
+  obtain ⟨hT, _⟩ := rouwenhorst_eq sqrt n rho sigma mu T g h
+  have h0 := rouwenhorst_row_sums n _ _ T hT i hi
+  have h1 := rouwenhorst_cond_mean sqrt n rho sigma mu hrho T g h i hi
+  have h2 := rouwenhorst_cond_var sqrt n rho sigma mu hrho hrho2 hs1 hs2 T g h i hi
+  set c := mu + rho * g.getD i 0 with hc
+  have e : ∀ j ∈ range n, T.get i j * (g.getD j 0 - c) ^ 2
+      = T.get i j * g.getD j 0 ^ 2 - 2 * c * (T.get i j * g.getD j 0) + c ^ 2 * T.get i j := by
+    intro j _; ring
+  rw [sum_congr rfl e, sum_add_distrib, sum_sub_distrib, ← mul_sum, ← mul_sum, h0, h1] at h2
+  linarith
+
+/-- **Conditional variance at every horizon is that of the AR(1).** For every `n ≥ 2`, every
+    horizon `k` and every grid point (given exact square roots):
+    `E[y_{t+k}² | y_i] - (E[y_{t+k} | y_i])² = σ² (1 + ρ² + … + ρ^{2(k-1)})`. -/
+theorem rouwenhorst_k_step_var (sqrt : K → K) (n : ℕ) (rho sigma mu : K) (hrho : rho ≠ 1)
+    (hrho2 : 1 - rho * rho ≠ 0)
+    (hs1 : ySd sqrt rho sigma * ySd sqrt rho sigma = sigma * sigma / (1 - rho * rho))
+    (hs2 : sqrt (((n - 1 : ℕ)) : K) * sqrt (((n - 1 : ℕ)) : K) = (((n - 1 : ℕ)) : K))
+    (T : M K) (g : List K) (h : rouwenhorst sqrt n rho sigma mu = some (T, g)) (k i : ℕ) (hi : i < n) :
+    kStepSq T g n k i - kStepMean T g n k i ^ 2
+      = sigma * sigma * ∑ l ∈ range k, (rho ^ 2) ^ l := by
+  obtain ⟨hT, _⟩ := rouwenhorst_eq sqrt n rho sigma mu T g h
+  have hr : 1 - rho ≠ 0 := fun h => hrho (by linarith)
+  -- closed form of the second moment, by induction on the horizon
+  have key : ∀ k i, i < n → kStepSq T g n k i
+      = (mu / (1 - rho) + rho ^ k * (g.getD i 0 - mu / (1 - rho))) ^ 2
+        + sigma * sigma * ∑ l ∈ range k, (rho ^ 2) ^ l := by
+    intro k
+    induction k with
+    | zero => intro i _; simp [kStepSq]
+    | succ k ih =>
+      intro i hi
+      have h0 := rouwenhorst_row_sums n _ _ T hT i hi
+      have h1 := rouwenhorst_cond_mean sqrt n rho sigma mu hrho T g h i hi
+      have h2 := rouwenhorst_cond_second_moment sqrt n rho sigma mu hrho hrho2 hs1 hs2 T g h i hi
+      set m := mu / (1 - rho) with hm
+      set c := sigma * sigma * ∑ l ∈ range k, (rho ^ 2) ^ l with hc
+      have e : ∀ j ∈ range n, T.get i j * kStepSq T g n k j
+          = ((m - rho ^ k * m) ^ 2 + c) * T.get i j
+            + 2 * (m - rho ^ k * m) * rho ^ k * (T.get i j * g.getD j 0)
+            + (rho ^ k) ^ 2 * (T.get i j * g.getD j 0 ^ 2) := by
+        intro j hj
+        rw [ih j (mem_range.mp hj)]; ring
+      show ∑ j ∈ range n, T.get i j * kStepSq T g n k j = _
+      rw [sum_congr rfl e, sum_add_distrib, sum_add_distrib, ← mul_sum, ← mul_sum, ← mul_sum,
+        h0, h1, h2, sum_range_succ]
+      have hmu : mu = m * (1 - rho) := by rw [hm]; field_simp
+      rw [hmu]
+      ring
+  rw [key k i hi, rouwenhorst_k_step_mean sqrt n rho sigma mu hrho T g h k i hi]
+  ring
+
+/-- non-vacuity: `n = 2`, `ρ = 3/5`, `σ = 4/5` (`σ²/(1-ρ²) = 1 = n-1`, so `sqrt ≡ 1` is exact): the
+    two-step conditional variance is `σ²(1 + ρ²) = 544/625` -/
+example : ∃ T g, rouwenhorst (fun _ : ℚ => 1) 2 (3/5 : ℚ) (4/5) 0 = some (T, g) ∧
+    ySd (fun _ : ℚ => 1) (3/5) (4/5) * ySd (fun _ : ℚ => 1) (3/5) (4/5) = (4/5) * (4/5) / (1 - (3/5) * (3/5)) ∧
+    kStepSq T g 2 2 0 - kStepMean T g 2 2 0 ^ 2 = 544/625 :=
+  ⟨_, _, rfl, by decide +kernel, by decide +kernel⟩
+
+/-- **Autocovariance at every lag** under the stationary Binomial law: `ρ^k σ²/(1-ρ²)`. -/
+theorem rouwenhorst_autocovariance_lag (sqrt : K → K) (n : ℕ) (rho sigma mu : K) (hrho : rho ≠ 1)
+    (hs1 : ySd sqrt rho sigma * ySd sqrt rho sigma = sigma * sigma / (1 - rho * rho))
+    (hs2 : sqrt (((n - 1 : ℕ)) : K) * sqrt (((n - 1 : ℕ)) : K) = (((n - 1 : ℕ)) : K))
+    (T : M K) (g : List K) (h : rouwenhorst sqrt n rho sigma mu = some (T, g)) (k : ℕ) :
+    ∑ i ∈ range n, ((Nat.choose (n - 1) i : K) / 2 ^ (n - 1)) *
+        ((g.getD i 0 - mu / (1 - rho)) * (kStepMean T g n k i - mu / (1 - rho)))
+      = rho ^ k * (sigma * sigma / (1 - rho * rho)) := by
+  obtain ⟨hT, hg⟩ := rouwenhorst_eq sqrt n rho sigma mu T g h
+  have hn : 2 ≤ n := by
+    by_contra hc
+    rw [(rowBuildMat_none_iff n _ _).mpr (by omega)] at hT; simp at hT
+  have hinner : ∀ i ∈ range n, ((Nat.choose (n - 1) i : K) / 2 ^ (n - 1)) *
+        ((g.getD i 0 - mu / (1 - rho)) * (kStepMean T g n k i - mu / (1 - rho)))
+      = rho ^ k * (((Nat.choose (n - 1) i : K) / 2 ^ (n - 1)) * (g.getD i 0 - mu / (1 - rho)) ^ 2) := by
+    intro i hi
+    rw [rouwenhorst_k_step_mean sqrt n rho sigma mu hrho T g h k i (mem_range.mp hi)]
+    ring
+  rw [sum_congr rfl hinner, ← mul_sum]
+  have hv := (rouwenhorst_uncond_moments sqrt n hn rho sigma mu hs1 hs2).2
+  simp only [] at hv
+  rw [hg, hv]
+
+/-- **First-order autocovariance (persistence) of the chain is that of the AR(1).** Under the
+    stationary Binomial(n-1, 1/2) law, `E[(y_t - m)(y_{t+1} - m)] = ρ σ²/(1-ρ²)` with
+    `m = μ/(1-ρ)`; together with `rouwenhorst_uncond_moments` the autocorrelation is exactly `ρ`,
+    for every `n ≥ 2`. -/
+theorem rouwenhorst_autocovariance (sqrt : K → K) (n : ℕ) (rho sigma mu : K) (hrho : rho ≠ 1)
+    (hs1 : ySd sqrt rho sigma * ySd sqrt rho sigma = sigma * sigma / (1 - rho * rho))
+    (hs2 : sqrt (((n - 1 : ℕ)) : K) * sqrt (((n - 1 : ℕ)) : K) = (((n - 1 : ℕ)) : K))
+    (T : M K) (g : List K) (h : rouwenhorst sqrt n rho sigma mu = some (T, g)) :
+    ∑ i ∈ range n, ((Nat.choose (n - 1) i : K) / 2 ^ (n - 1)) *
+        ((g.getD i 0 - mu / (1 - rho)) * ∑ j ∈ range n, T.get i j * (g.getD j 0 - mu / (1 - rho)))
+      = rho * (sigma * sigma / (1 - rho * rho)) := by
+  obtain ⟨hT, hg⟩ := rouwenhorst_eq sqrt n rho sigma mu T g h
+  have hn : 2 ≤ n := by
+    by_contra hc
+    rw [(rowBuildMat_none_iff n _ _).mpr (by omega)] at hT; simp at hT
+  have hr : 1 - rho ≠ 0 := fun h => hrho (by linarith)
+  have hinner : ∀ i ∈ range n, ((Nat.choose (n - 1) i : K) / 2 ^ (n - 1)) *
+        ((g.getD i 0 - mu / (1 - rho)) * ∑ j ∈ range n, T.get i j * (g.getD j 0 - mu / (1 - rho)))
+      = rho * (((Nat.choose (n - 1) i : K) / 2 ^ (n - 1)) * (g.getD i 0 - mu / (1 - rho)) ^ 2) := by
+    intro i hi
+    have hi' := mem_range.mp hi
+    have h0 := rouwenhorst_row_sums n _ _ T hT i hi'
+    have h1 := rouwenhorst_cond_mean sqrt n rho sigma mu hrho T g h i hi'
+    have e : ∑ j ∈ range n, T.get i j * (g.getD j 0 - mu / (1 - rho))
+        = (mu + rho * g.getD i 0) - mu / (1 - rho) := by
+      simp only [mul_sub, sum_sub_distrib, ← sum_mul, h0, h1, one_mul]
+    rw [e]
+    field_simp
+    ring
+  rw [sum_congr rfl hinner, ← mul_sum]
+  have hv := (rouwenhorst_uncond_moments sqrt n hn rho sigma mu hs1 hs2).2
+  simp only [] at hv
+  rw [hg, hv]
+
 /-- non-vacuity of the hypotheses of `rouwenhorst_cond_var` / `rouwenhorst_cond_mean`:
     `ρ = 3/5`, `σ = 4/5` (so `σ²/(1-ρ²) = 1`), `n = 5` (so `n-1 = 4`), `μ = 1`, with a `sqrt`
     that is exact on these two arguments -/
@@ -363,6 +589,27 @@ theorem tauchen_cdf (sqrt erfc : K → K) (n : ℕ) (hn : 2 ≤ n) (rho sigma mu
   rw [sum_congr rfl (fun j hj => M.get_tab _ _ _ _ _ hi (by have := mem_range.mp hj; omega))]
   exact tauchen_partial_sum _ _ n rho sigma _ i
     (fun j hj => tauchenX_spacing sqrt n hn rho sigma nstd j hj) k hk
+
+/-- **The cells are the nearest-point cells of the grid.** The boundary `x_j + h` used between
+    columns `j` and `j+1` is the mid-point `(x_j + x_{j+1})/2` of the two grid points (and equals
+    the lower boundary `x_{j+1} - h` of the next cell), so `P[i,j]` is the mass that
+    `N(ρ x_i, σ²)` — as evaluated by `Φ` — gives to the set of points nearer to `x_j` than to any
+    other grid point; the two end cells are unbounded. All `n ≥ 2`. -/
+theorem tauchen_cells_are_midpoints (sqrt : K → K) (n : ℕ) (hn : 2 ≤ n) (rho sigma : K) (nstd : ℕ)
+    (j : ℕ) (hj : j + 1 < n) :
+    let x := (tauchenX sqrt n rho sigma nstd).1
+    let h := (tauchenX sqrt n rho sigma nstd).2
+    x.getD j 0 + h = (x.getD j 0 + x.getD (j + 1) 0) / 2 ∧ x.getD j 0 + h = x.getD (j + 1) 0 - h := by
+  intro x h
+  have hsp := tauchenX_spacing sqrt n hn rho sigma nstd j hj
+  constructor
+  · show (tauchenX sqrt n rho sigma nstd).1.getD j 0 + (tauchenX sqrt n rho sigma nstd).2 = _
+    rw [hsp]; ring
+  · show (tauchenX sqrt n rho sigma nstd).1.getD j 0 + (tauchenX sqrt n rho sigma nstd).2 = _
+    rw [hsp]; ring
+
+/-- non-vacuity: `n = 3`, `n_std = 2`, `sqrt ≡ 1` gives the demeaned grid `-2, 0, 2`, half step 1 -/
+example : (tauchenX (fun _ : ℚ => 1) 3 (1/2) 1 2) = ([-2, 0, 2], 1) := by decide +kernel
 
 /-- **Entries are non-negative** when `erfc` is non-increasing with values in `[0,2]`,
     the two square roots are non-negative resp. positive and `σ > 0`. -/
@@ -536,7 +783,58 @@ example : estimateMc (α := ℚ) ([1, 2, 1, 1, 3, 1] : List ℕ)
 /-- a state that is never left (`3`, last observation): the `ValueError` of the validation -/
 example : estimateMc (α := ℚ) ([1, 2, 1, 3] : List ℕ) = none := by decide +kernel
 
+/-- **estimate_mc, as documented: `P[i,j] = (transitions i→j) / (transitions out of i)`.**
+    With `N_i = outCount X S[i]` the number of positions `t < T-1` with `X[t] = S[i]`
+    (= the occurrences of `S[i]` among all observations but the last): `N_i ≠ 0` and
+    `P[i][j] · N_i = N(S[i], S[j])` for every returned chain. -/
+theorem estimate_mc_out_counts (X : List β) (S : List β) (P : List (List K))
+    (h : estimateMc X = some (S, P)) (i : ℕ) (hi : i < S.length) :
+    outCount X S[i] = X.dropLast.count S[i] ∧ outCount X S[i] ≠ 0 ∧
+    ∀ j (hj : j < S.length),
+      (P.getD i []).getD j 0 * ((outCount X S[i] : ℕ) : K) = (transCount X S[i] S[j] : K) := by
+  obtain ⟨hS, _, _, _, hrows⟩ := estimate_mc_counts X S P h
+  subst hS
+  obtain ⟨hne, _, _, hent⟩ := hrows i hi
+  rw [sum_transCount_eq_outCount] at hne hent
+  exact ⟨outCount_eq_count_dropLast X _, hne, hent⟩
+
+/-- non-vacuity: in `1,2,1,1,3,1` state `1` is left three times (the last `1` is not left) -/
+example : outCount ([1, 2, 1, 1, 3, 1] : List ℕ) 1 = 3 ∧ transCount ([1, 2, 1, 1, 3, 1] : List ℕ) 1 2 = 1 := by
+  decide
+
 end est
+
+/-! ### estimate_mc returns a stochastic matrix (ordered field) -/
+
+/-- every entry of the estimated matrix lies in `[0, 1]` (with `estimate_mc_counts`: rows sum
+    to one) -/
+theorem estimate_mc_entries_in_unit_interval {β : Type} [LinearOrder β] {K : Type} [Field K]
+    [LinearOrder K] [IsStrictOrderedRing K] (X : List β) (S : List β) (P : List (List K))
+    (h : estimateMc X = some (S, P)) (i j : ℕ) (hi : i < S.length) (hj : j < S.length) :
+    0 ≤ (P.getD i []).getD j 0 ∧ (P.getD i []).getD j 0 ≤ 1 := by
+  obtain ⟨hS, _, _, _, hrows⟩ := estimate_mc_counts X S P h
+  subst hS
+  obtain ⟨hne, _, _, hent⟩ := hrows i hi
+  have he := hent j hj
+  set N : ℕ := ((uniqueSorted X).map (transCount X (uniqueSorted X)[i])).sum with hN
+  have hNpos : (0 : K) < (N : K) := by
+    have : 0 < N := Nat.pos_of_ne_zero hne
+    exact_mod_cast this
+  have hle : transCount X (uniqueSorted X)[i] (uniqueSorted X)[j] ≤ N := by
+    rw [hN]
+    exact List.single_le_sum (fun _ _ => Nat.zero_le _) _
+      (List.mem_map.mpr ⟨_, List.getElem_mem hj, rfl⟩)
+  have hleK : ((transCount X (uniqueSorted X)[i] (uniqueSorted X)[j] : ℕ) : K) ≤ (N : K) := by
+    exact_mod_cast hle
+  have hval : (P.getD i []).getD j 0
+      = ((transCount X (uniqueSorted X)[i] (uniqueSorted X)[j] : ℕ) : K) / (N : K) := by
+    rw [← he]; field_simp
+  rw [hval]
+  exact ⟨div_nonneg (Nat.cast_nonneg _) hNpos.le, (div_le_one hNpos).mpr hleK⟩
+
+/-- non-vacuity: `estimate_mc` returns a chain on `1,2,1,1,3,1` (three states) -/
+example : (estimateMc (α := ℚ) ([1, 2, 1, 1, 3, 1] : List ℕ)).map (fun r => r.1.length) = some 3 := by
+  decide +kernel
 
 /-! ## fit_discrete_mc -/
 
@@ -659,6 +957,88 @@ theorem fit_counts {K : Type} [Field K] [CharZero K] (X grids : List (List Rat))
   refine ⟨by rw [hV]; simp [S, idx], hlen, fun i hi => ?_⟩
   obtain ⟨a, _, b, c⟩ := hrows i hi
   exact ⟨a, b, c⟩
+
+/-- **fit_discrete_mc in terms of grid points.** For non-empty strictly increasing grids, if
+    `fit_discrete_mc(X, grids, order)` returns `(V, P)` then, with `pts` the sequence of nearest
+    grid points of the observations: the state values `V` are pairwise distinct, every `V[i]` is
+    left at least once, and `P[i][j] · (number of times pts leaves V[i]) = number of transitions
+    V[i] → V[j] in pts` — `fit_discrete_mc` is `estimate_mc` of the discretised series,
+    labelled by the grid points themselves (both orders, every dimension and length). -/
+theorem fit_point_counts {K : Type} [Field K] [CharZero K] (X grids : List (List Rat)) (o : Bool)
+    (hn : ∀ g ∈ grids, g ≠ [] ∧ g.Pairwise (· < ·))
+    (V : List (List Rat)) (P : List (List K)) (h : fitDiscreteMc (α := K) X grids o = some (V, P)) :
+    let pts := X.map (nearestPoint grids o)
+    V.Nodup ∧ P.length = V.length ∧
+    ∀ i (hi : i < V.length),
+      outCount pts V[i] ≠ 0 ∧
+      ∀ j (hj : j < V.length),
+        (P.getD i []).getD j 0 * ((outCount pts V[i] : ℕ) : K) = (transCount pts V[i] V[j] : K) := by
+  intro pts
+  have hn' : ∀ g ∈ grids, g ≠ [] ∧ g.Pairwise (· ≤ ·) :=
+    fun g hg => ⟨(hn g hg).1, (hn g hg).2.imp (fun h => le_of_lt h)⟩
+  have hns : ∀ g ∈ grids, g.Pairwise (· < ·) := fun g hg => (hn g hg).2
+  obtain ⟨he, hSp, hV, _, _⟩ := fit_state_values X grids o V P h
+  set idx := X.map fun x => QE.C16.nearestIndex grids x o with hidx
+  set S := uniqueSorted idx with hS
+  set row : ℕ → List Rat := fun k => (QE.C16.cartesian grids o).getD k [] with hrow
+  have hpts : pts = idx.map row := by
+    simp only [pts, hidx, List.map_map]; rfl
+  -- all indices are row numbers of the product grid
+  have hlenprod : (QE.C16.cartesian grids o).length = (grids.map List.length).prod :=
+    (QE.C16.cartesian_spec grids).1 o
+  have hrange : ∀ k ∈ idx, k < (grids.map List.length).prod := by
+    intro k hk
+    obtain ⟨x, _, rfl⟩ := List.mem_map.mp hk
+    rw [← hlenprod]
+    exact (QE.C16.nearestIndex_is_argmin grids x o hn').1
+  have hinj : ∀ u v, u ∈ idx → v ∈ idx → row u = row v → u = v := fun u v hu hv huv =>
+    cartesian_row_injective grids hns o u v (hrange u hu) (hrange v hv) huv
+  have hSmem : ∀ k, k ∈ S → k ∈ idx := fun k hk => (mem_uniqueSorted idx k).mp hk
+  have hVlen : V.length = S.length := by rw [hV]; simp
+  have hVget : ∀ i (hi : i < V.length), V[i] = row (S[i]'(by omega)) := by
+    intro i hi
+    simp only [hV, List.getElem_map]
+  refine ⟨?_, ?_, ?_⟩
+  · rw [hV]
+    apply List.Nodup.map_on _ (hSp.imp (fun h => ne_of_lt h))
+    intro u hu v hv huv
+    exact hinj u v (hSmem u hu) (hSmem v hv) huv
+  · obtain ⟨_, _, _, hl, _⟩ := estimate_mc_counts idx S P he
+    rw [hl, hVlen]
+  · intro i hi
+    have hi' : i < S.length := by omega
+    obtain ⟨_, hne, hent⟩ := estimate_mc_out_counts idx S P he i hi'
+    have hSi : S[i] ∈ idx := hSmem _ (List.getElem_mem hi')
+    have hout : outCount pts V[i] = outCount idx S[i] := by
+      rw [hVget i hi, hpts]
+      apply outCount_map
+      intro u v hu hv huv
+      have hu' : u ∈ idx := by rcases List.mem_cons.mp hu with rfl | hu; exact hSi; exact hu
+      have hv' : v ∈ idx := by rcases List.mem_cons.mp hv with rfl | hv; exact hSi; exact hv
+      exact hinj u v hu' hv' huv
+    refine ⟨by rw [hout]; exact hne, fun j hj => ?_⟩
+    have hj' : j < S.length := by omega
+    have hSj : S[j] ∈ idx := hSmem _ (List.getElem_mem hj')
+    have htr : transCount pts V[i] V[j] = transCount idx S[i] S[j] := by
+      rw [hVget i hi, hVget j hj, hpts]
+      apply transCount_map
+      intro u v hu hv huv
+      have mem : ∀ w, w ∈ S[i] :: S[j] :: idx → w ∈ idx := by
+        intro w hw
+        rcases List.mem_cons.mp hw with rfl | hw
+        · exact hSi
+        · rcases List.mem_cons.mp hw with rfl | hw
+          · exact hSj
+          · exact hw
+      exact hinj u v (mem u hu) (mem v hv) huv
+    rw [hout, htr]
+    exact hent j hj'
+
+/-- non-vacuity: non-empty strictly increasing grids on which `fit_discrete_mc` returns a chain
+    (see the examples below for its state values) -/
+example : (∀ g ∈ ([[0, 1, 2], [0, 1]] : List (List Rat)), g ≠ [] ∧ g.Pairwise (· < ·)) ∧
+    (fitDiscreteMc (α := ℚ) [[-1/10, 6/5], [2, 0], [1/2, 2/5], [1, 1/10], [2, 0]] [[0, 1, 2], [0, 1]] false).isSome = true := by
+  decide +kernel
 
 /-- the product index is the mixed-radix code of the per-dimension nearest indices -/
 theorem fit_index_is_code (grids : List (List Rat)) (x : List Rat) :
